@@ -118,3 +118,45 @@ def replay_history(parser, hist):
 
 def drive_history(parser, rng, pool, n_calls, edit_lists=True):
     return run_script(parser, make_script(rng, pool, n_calls, edit_lists))
+
+
+def two_parsers(rec, rng, corp, prop, rounds, token_key="history/tokens"):
+    """Two parsers that live side by side with DIFFERENT tokenizer settings (one knows the
+    function name 'abs' and/or keeps padding, the other is stock).  Both are constructed before
+    anything is parsed and no parser is constructed while they work (the monitors active for them
+    use only the reference grammar / reference tokenizer), because constructing a parser is itself
+    an event that may reset shared state.  The same texts go to both, in either order."""
+    from .. import core
+    from ..oracles import refgrammar as G
+    from mathy_core.expressions import AbsExpression
+    from mathy_core.parser import ExpressionParser
+
+    for _ in range(rounds):
+        a, b = ExpressionParser(), ExpressionParser()
+        a.tokenizer.functions["abs"] = AbsExpression
+        a.tokenizer._vmon_funcs = {"sgn": "Sgn", "abs": "Abs"}
+        keep = False   # (a parser whose tokenizer keeps padding cannot parse at all: not a supported setting)
+        a._vmon_checks = b._vmon_checks = {"grammar", "closure"}
+        texts = ["abs(x) + 2", "abs(y)", "2abs", "sgn(abs(x - 7))", "abs(-4) + abs(34)", "4x + 2y", "x^abs", "abs"]
+        for _ in range(4):
+            t = rng.choice(corp)
+            texts.append(t)
+            texts.append(t.replace("sgn", "abs") if "sgn" in t else "abs(" + t[:10] + ")")
+        rng.shuffle(texts)
+        for t in texts:
+            order = [a, b] if rng.random() < 0.5 else [b, a]
+            for p in order + order[:1]:
+                rec.arm("two-parsers:calls")
+                if rng.random() < 0.5:
+                    try:
+                        toks = p.tokenize(t)
+                    except Exception:
+                        toks = None
+                    if toks is not None:
+                        from ..monitors import parse as MP
+
+                        MP.check_tokens(prop, t, not p.tokenizer.exclude_padding, toks, None, funcs=getattr(p.tokenizer, "_vmon_funcs", None))
+                try:
+                    p.parse(t)
+                except Exception:
+                    pass
